@@ -43,7 +43,26 @@ RULE = ("Hypothesis draws: time vector (1..40 samples, log-spaced or "
         "1/(1+i w tau), i.i.d. complex normal, purely real; amplitude "
         "1e-15..1e2).  Non-trivial = all three groups (extrapolated, "
         "in-band, zeroed) are non-empty; distinct by the whole drawn "
-        "configuration except the spectrum.")
+        "configuration except the spectrum.  Added after the blind-spot "
+        "audit: times also within 1e-6..1e-3 s and 1e2..1e4 s; ft='fft' "
+        "({}: 2048 LINEARLY spaced required frequencies; pts_per_dec; dfreq/"
+        "nfreq) and the spellings 'DLF'/'Dlf'/'FFTLOG'/'FFTLog'; "
+        "every_x_freq up to 80 (clipped to a quarter of the required "
+        "ones); input_freq kinds 'mixed' (some computed points on required "
+        "frequencies, some off them), 'equal_but_one' and 'near_equal' "
+        "(freq_required with one / every entry changed by a relative "
+        "1e-12..1e-3); constructor given input_freq AND every_x_freq; verb "
+        "0..4 (stdout captured); fdata handed over as complex128, "
+        "complex64, real float64, strided view (NaN in the gaps) or "
+        "read-only array; optionally ANOTHER spectrum sent through "
+        "interpolate / freq2time of the same object first; offset as "
+        "float, int, float32, 1-element array or list; object examined as "
+        "built, after copy.deepcopy or after a pickle round trip; repr().  "
+        "setters: sequences of 1..10 setter calls drawn WITH replacement "
+        "(same setter several times, A->B->A, transient fmin > fmax, None "
+        "assigned to the coarse input that is not set), non-final "
+        "occurrences take own drawn values; between the calls the object "
+        "is optionally USED (all attributes read, a spectrum filled).")
 ASSUMPTIONS = [
     "empymod.utils.check_time / empymod.model.tem are the reference "
     "(called by the checker itself with arguments built from the inputs); "
@@ -64,7 +83,27 @@ ASSUMPTIONS = [
     "against a particular implementation of PCHIP",
     "setters sub-check: for a final signal of 0 reached through the signal "
     "setter both the sine and the cosine variant of the transform are "
-    "accepted (either is a valid impulse-response transform)",
+    "accepted (either is a valid impulse-response transform); with repeated "
+    "setters this holds whenever the signal was non-zero at any time of the "
+    "object's life (empymod keeps a stored DLF 'kind' for signal 0)",
+    "below fmin the imaginary part is additionally compared (own bucket "
+    "extrapolation:not_documented_pchip, 1e-9 of the lowest computed "
+    "imaginary part) with scipy's PchipInterpolator through (1e-100 Hz, 0) "
+    "and ALL computed points, the mechanism the class docstring names",
+    "fdata of another dtype / layout: every reference is computed from its "
+    "exact complex128 value; the input buffer (and the gaps of a strided "
+    "view) must be unchanged after interpolate and after freq2time",
+    "transient states of a setter sequence are not judged (reads and the "
+    "fill in between are wrapped; a transient combination the reference "
+    "bookkeeping refuses is skipped, at verb=4 also one whose required "
+    "frequencies form a matrix); only the mutual exclusion of input_freq / "
+    "every_x_freq is asserted after every coarse setter (documented: "
+    "setting one erases the other, constructor keeps input_freq; assigning "
+    "None to one leaves the other)",
+    "ft='fft' and upper-case spellings are accepted by "
+    "empymod.utils.check_time, to which the class docstring defers; that a "
+    "Fourier object can be deep-copied / pickled is NOT demanded (a "
+    "failing copy falls back to the original object)",
 ]
 SHARDS = {'quick': 1, 'thorough': 16}
 
@@ -212,8 +251,7 @@ def band_spec():
         'uk': _unit(), 'ui': _unit(), 'lo': EDGE, 'hi': EDGE,
         'pos': st.sampled_from(['low', 'high', 'mid', 'mid', 'mid', 'mid',
                                 'mid', 'mid', 'mid', 'mid']),
-        'tlo': st.floats(0.05, 0.95), 'thi': st.floats(0.05, 0.95),
-        'cast': st.sampled_from(['float', 'float', 'np64'])})
+        'tlo': st.floats(0.05, 0.95), 'thi': st.floats(0.05, 0.95)})
 
 
 def spectrum_spec():
@@ -540,8 +578,6 @@ def realise(cfg):
     if coarse.size < kmin:
         raise Inconclusive("coarse vector too short for a cubic spline")
     fmin, fmax, lo_mode, hi_mode = build_band(cfg['band'], coarse, req, kmin)
-    if cfg['band'].get('cast', 'float') == 'np64':
-        fmin, fmax = np.float64(fmin), np.float64(fmax)
     return {'ctor_every': ctor_every(cfg['coarse'], req),
             'off_as': cfg.get('off_as', 'float') if ENABLE_OFF_AS else 'float',
             'repr': cfg.get('repr', False),
@@ -678,10 +714,7 @@ def _oracle(F, X, sspec, rec, allowed_signals=None, mismatch_sig=None):
                 {'kind': sspec.get('pre_kind', 'random'),
                  'lgamp': sspec.get('pre_lgamp', 0.0),
                  'seed': (int(sspec['seed']) + 1) % 2**32}, fc), sspec)
-            if pre == 'interpolate':
-                F.interpolate(other)
-            else:
-                F.freq2time(other, off)
+            F.interpolate(other)
         out = F.interpolate(fdata_in)
     except Exception as e:
         if same_size_differs:
@@ -692,6 +725,12 @@ def _oracle(F, X, sspec, rec, allowed_signals=None, mismatch_sig=None):
                 f"but other values; {fc.size} computed vs {int(itp.sum())} "
                 "in-band required frequencies)", det) from e
         raise
+    if pre == 'freq2time':
+        F.freq2time(other, off)
+        if not _eq(F.interpolate(fdata_in), out):
+            raise Violation("interpolate:not_reproducible",
+                            "the same fdata filled differently after another "
+                            "spectrum went through freq2time", det)
     if not _same_buffer(fdata_in, keep):
         raise Violation("interpolate:modifies_input", "fdata changed", det)
     rec.cls(f"fdata_as={how}", f"pre_call={pre}")
@@ -1007,17 +1046,30 @@ def _variant_ftarg(time, X, variant):
 def _ft_classes(rec, cfg, X):
     fs = cfg['ft']
     rec.cls(f"ft={fs['mode']}", f"ntime={'1' if X['time'].size == 1 else 'n'}")
+    rec.cls(f"time_range={cfg['time'].get('range', 'std')}",
+            "ft_spelling=" + ('not_passed' if X['ft'] is None else
+                              'lower' if X['ft'] == X['ft'].lower() else
+                              'upper' if X['ft'] == X['ft'].upper() else
+                              'mixed'))
+    if fs['mode'] == 'fft':
+        rec.cls(f"fft={fs['var']}")
     if fs['ft'] == 'dlf' and fs['mode'] != 'default':
         rec.cls(f"filter={fs['filter']}")
 
 
-def _valid_combo(args):
+def _valid_combo(args, one_d=False):
+    """The combination is accepted by the reference bookkeeping.  one_d: and
+    the required frequencies form a vector (standard DLF with several times
+    gives a matrix, which is outside the property's quantifier; emg3d
+    carries such a transient state along but cannot print it at verb=4)."""
     try:
         _, f, _, _ = own_check_time(args['time'], args['signal'], args['ft'],
                                     args['ftarg'])
     except Exception:
         return False
     f = np.asarray(f)
+    if one_d and f.ndim != 1:
+        return False
     return f.size >= 4 and bool(np.all(np.isfinite(f)))
 
 
@@ -1025,10 +1077,14 @@ def _valid_combo(args):
 def _provenance(F, cfg, rec):
     """The object the oracle looks at: as built, a deep copy, or unpickled."""
     prov = cfg.get('prov', 'fresh') if ENABLE_PROVENANCE else 'fresh'
-    if prov == 'deepcopy':
-        F = copy.deepcopy(F)
-    elif prov == 'pickle':
-        F = pickle.loads(pickle.dumps(F))
+    try:
+        if prov == 'deepcopy':
+            F = copy.deepcopy(F)
+        elif prov == 'pickle':
+            F = pickle.loads(pickle.dumps(F))
+    except Exception:
+        # that the object can be copied / pickled is not part of the property
+        prov += '_failed'
     rec.cls(f'prov={prov}')
     return F
 
@@ -1123,10 +1179,11 @@ def case_setters(spec, rec):
             m_inp = np.logspace(-2, 1, ini['n_input'])
     # the initial combination must itself be a valid input; fall back to
     # plain alternatives if the independently drawn pieces do not fit
-    if not _valid_combo(args):
+    one_d = spec['verb'] > 3
+    if not _valid_combo(args, one_d):
         if 'ft' in ops:
             args['ft'], args['ftarg'] = 'dlf', None
-        if 'time' in ops and not _valid_combo(args):
+        if 'time' in ops and not _valid_combo(args, one_d):
             args['time'] = X['time']*2.5
     kw = {}
     if args['ft'] is not None:
@@ -1173,7 +1230,7 @@ def case_setters(spec, rec):
                     ft_, fa_ = build_ft(fs)
                     new['ft'] = 'dlf' if ft_ is None else ft_
                     new['ftarg'] = {} if fa_ is None else fa_
-                if not _valid_combo(new):
+                if not _valid_combo(new, one_d):
                     # emg3d may legitimately refuse this transient combination
                     if final:
                         raise Inconclusive("final setter value does not fit "
